@@ -21,6 +21,8 @@ func init() {
 }
 
 func runC05(c *Ctx) {
+	c.R.Rule("RS-no-request-time-state", "request handling writes no state that outlives the request (package-level variables, objects built at start-up, constructor variables captured by handlers) declared in the packages implementing this property", 1)
+	runStateless(c, "RS-no-request-time-state", "pkg/cookies", "providers", "pkg/providers")
 	r := c.R
 	r.Rule("R1-nonce-before-validate", "callback: SetSessionNonce(session) precedes ValidateSession(session)==true on every saving path", 1)
 	r.Rule("R2-validate-checks-nonce", "OIDC ValidateSession true => Verify ok && (SkipNonce || checkNonce nil); checkNonce nil => CheckNonce(nonce claim) true; constant-time hash compare; overrides delegate", 6)
